@@ -85,7 +85,13 @@ BEval(e, env) ==
       [] e.t = "Const" -> BigV(FromInt(e.v.n))
       [] e.t = "Sum" -> FoldB(BigAdd, BigV(BZero), [i \in 1..Len(e.c) |-> BEval(e.c[i], env)])
       [] e.t = "Product" -> FoldB(BigMul, BigV(FromInt(1)), [i \in 1..Len(e.c) |-> BEval(e.c[i], env)])
-      [] e.t = "Power" -> LET a == BEval(e.a, env) IN IF IsBig(a) THEN BigV(BigMul(a.v, a.v)) ELSE a   \* exponent 2 only
+      [] e.t = "Power" -> LET a == BEval(e.a, env) IN IF IsBig(a) THEN BigV(BigPow(a.v, e.b.v.n)) ELSE a   \* constant exponents >= 0
+      [] e.t \in {"FloorDiv", "Remainder", "RShift"} ->
+            LET a == BEval(e.a, env)
+                b == IF e.t = "RShift" THEN BigV(FromInt(2 ^ e.b.v.n)) ELSE BEval(e.b, env) IN
+            IF ~IsBig(a) THEN a ELSE IF ~IsBig(b) THEN b
+            ELSE IF b.v.s = 0 THEN ErrB("ZeroDivisionError")
+            ELSE LET x == BigDivMod(a.v, b.v) IN BigV(IF e.t = "Remainder" THEN x.r ELSE x.q)
       [] e.t = "LShift" -> LET a == BEval(e.a, env) IN IF IsBig(a) THEN BigV(BigMul(a.v, FromInt(2 ^ e.b.v.n))) ELSE a
       [] e.t \in {"Max", "Min"} -> Extreme(e.t = "Min", [i \in 1..Len(e.c) |-> BEval(e.c[i], env)])
       [] e.t = "Cmp" -> LET a == BEval(e.a, env) b == BEval(e.b, env) IN
@@ -100,7 +106,9 @@ JudgeBig(e, env, got, aux) ==
     IF e.t \in {"FloorDiv", "Remainder", "RShift"} THEN
         LET a == BEval(e.a, env)
             b == IF e.t = "RShift" THEN BigV(FromInt(2 ^ e.b.v.n)) ELSE BEval(e.b, env)
-        IN IF ~IsBig(a) \/ ~IsBig(b) THEN "SKIP"
+        IN IF (a.k = "err" /\ a.e = "ZeroDivisionError") \/ (IsBig(a) /\ b.k = "err" /\ b.e = "ZeroDivisionError")
+           THEN (IF got.k = "err" /\ got.e = "ZeroDivisionError" THEN "OK" ELSE "value-instead-of-error")
+           ELSE IF ~IsBig(a) \/ ~IsBig(b) THEN "SKIP"
            ELSE IF b.v.s = 0 THEN (IF got.k = "err" /\ got.e = "ZeroDivisionError" THEN "OK" ELSE "value-instead-of-error")
            ELSE IF got.k = "err" THEN "error-instead-of-value"
            ELSE IF got.k # "big" THEN "wrong-type"
@@ -109,21 +117,39 @@ JudgeBig(e, env, got, aux) ==
                  ELSE IF IsDivMod(a.v, b.v, aux.v, got.v) THEN "OK" ELSE "wrong-value")
            ELSE IF IsDivMod(a.v, b.v, got.v, BigSub(a.v, BigMul(got.v, b.v))) THEN "OK" ELSE "wrong-value"
     ELSE LET m == BEval(e, env) IN
-         IF m.k = "err" THEN "SKIP"
+         IF m.k = "err" /\ m.e = "ZeroDivisionError"
+         THEN (IF got.k = "err" /\ got.e = "ZeroDivisionError" THEN "OK" ELSE "value-instead-of-error")
+         ELSE IF m.k = "err" THEN "SKIP"
          ELSE IF got.k = "err" THEN "error-instead-of-value"
          ELSE IF m.k = "bool" THEN (IF got.k = "bool" /\ got.b = m.b THEN "OK"
                                     ELSE IF got.k = "bool" THEN "wrong-value" ELSE "wrong-type")
          ELSE IF got.k # "big" THEN "wrong-type"
          ELSE IF BigEq(m.v, got.v) THEN "OK" ELSE "wrong-value"
 
+\* two levels of operators over the large variables: every inner operator in every operand
+\* position of every outer one (the float detour, a truncating quotient, a sign error in the
+\* remainder show only when the large value is an OPERAND of the next operator)
+CONSTANT Tier
+Ops2(l, r) == { N("Sum", << l, r >>), N("Product", << l, r >>), B("FloorDiv", l, r), B("Remainder", l, r),
+                N("Max", << l, r >>), N("Min", << l, r >>) }
+Ops1(l) == { B("Power", l, KI(2)), B("Power", l, KI(3)), B("RShift", l, KI(7)), B("LShift", l, KI(5)) }
+Leaves3 == { va, vb, vc }
+LeavesK == Leaves3 \cup { KI(-1), KI(3) }
+Inner == UNION { Ops2(l, r) : l \in Leaves3, r \in Leaves3 } \cup UNION { Ops1(l) : l \in Leaves3 }
+Outer(i, z) == Ops2(i, z) \cup Ops2(z, i) \cup Ops1(i)
+               \cup { Cmp(i, "<", z), Cmp(i, "==", z), Cmp(z, ">=", i), IfE(Cmp(i, ">", z), i, z) }
+Gen2 == UNION { Outer(i, z) : i \in Inner, z \in LeavesK }
+AllTrees == { Trees[k] : k \in 1..Len(Trees) } \cup Gen2
+EnvIxs == IF Tier = "quick" THEN {2, 3, 5, 7} ELSE 1..Len(BigEnvs)
 \* generator: one state per (tree, environment)
-Init == ix \in (1..Len(Trees)) \X (1..Len(BigEnvs))
+Init == ix \in (({ Trees[k] : k \in 1..Len(Trees) } \X (1..Len(BigEnvs))) \cup (Gen2 \X EnvIxs))
 Next == FALSE /\ UNCHANGED ix
-Emit == PrintT(ToJson([e |-> Trees[ix[1]], benv |-> ix[2]]))
+Emit == PrintT(ToJson([e |-> ix[1], benv |-> ix[2]]))
 ASSUME PrintT(ToJson([bigenvs |-> BigEnvs]))
 \* the oracle's own laws on the values of the box
 BoxVals == UNION { { BigEnvs[i].a, BigEnvs[i].b, BigEnvs[i].c } : i \in 1..Len(BigEnvs) } \cup { BZero, FromInt(1), FromInt(-1) }
 ASSUME LawsOn(BoxVals)
+ASSUME BigDivLaw(BoxVals)
 \* a float detour is refuted: (2**53 + 1) // 1 is not 2**53
 ASSUME LET e == BigEnvs[2] IN
        /\ IsDivMod(e.a, e.b, e.a, BZero)
